@@ -131,6 +131,29 @@ example : (retire (releaseAll (alloc (.nested .gsmState) ({}, {})))).leakedHeap 
 example : (step { h := some {} } (.close false)).2 = -1 := by decide
 
 
+/-! ### several handles at once -/
+
+/-- **multi_close_releases_all.**  For every history over any number of handles (each call names its handle; opens, calls and closes of
+    different handles interleave freely): nothing is ever lost or released twice, and when no handle is open nothing is held. -/
+theorem multi_close_releases_all (ops : List (Nat × Op)) :
+    (runAt {} ops).a = {} ∧ ((runAt {} ops).hs = [] → ∀ k, (runAt {} ops).held k = 0) := by
+  have hw := runAt_WsInv WsInv_init ops
+  refine ⟨hw.1, ?_⟩
+  intro hnil k
+  unfold Worlds.held
+  rw [hnil, hw.1]
+  cases k <;> rfl
+
+/-- **handles_isolated.**  A call on handle i leaves every other handle's ledger exactly as it was. -/
+theorem handles_isolated (w : Worlds) (i j : Nat) (op : Op) (hne : j ≠ i) : (stepAt w i op).1.get j = w.get j := by
+  unfold stepAt
+  exact get_set_other w i j _ _ hne
+
+-- two handles open at once: a WAV writer with a chunk and an ALAC writer; closing one leaves the other's holdings in place
+example : (runAt {} [(0, .open wavFloatW), (1, .open alacW), (0, .setChunk true)]).held .heap = 6 + 6 := by decide
+example : (runAt {} [(0, .open wavFloatW), (1, .open alacW), (0, .setChunk true), (1, .close true)]).held .heap = 6 := by decide
+example : (runAt {} [(0, .open wavFloatW), (1, .open alacW), (0, .close true), (1, .close true)]).hs = [] := by decide
+
 /-! ### call-dispatch rules repaired after the campaign found them (KF-C16-dither-twice, KF-C16-aiff-ima-seek-write) -/
 
 open Sf.Ledger.Calls in
